@@ -87,6 +87,10 @@ fn default_ret() -> String {
 struct LoopSpec {
     ordinal: usize,
     text: String,
+    /// `for` loops only: ghost name of the iterator (Verus syntax `for x in NAME: expr`), so
+    /// that the invariant can refer to the position; an annotation, not executable code
+    #[serde(default)]
+    iter_name: String,
 }
 
 #[derive(Deserialize, Debug)]
@@ -452,9 +456,17 @@ fn emit_item(it: &syn::Item, sel: &ItemSel, dropped: &mut Vec<String>) -> (Strin
 struct LoopMarker {
     next: usize,
     wanted: Vec<usize>,
+    named: Vec<usize>,
 }
 impl syn::visit_mut::VisitMut for LoopMarker {
     fn visit_expr_mut(&mut self, e: &mut syn::Expr) {
+        if let syn::Expr::ForLoop(w) = e {
+            if self.named.contains(&self.next) {
+                let id = syn::Ident::new(&format!("__vx_iter_{}", self.next), proc_macro2::Span::call_site());
+                let orig = w.expr.clone();
+                w.expr = Box::new(syn::parse_quote!(#id(#orig)));
+            }
+        }
         let body: Option<&mut syn::Block> = match e {
             syn::Expr::While(w) => Some(&mut w.body),
             syn::Expr::ForLoop(w) => Some(&mut w.body),
@@ -532,7 +544,8 @@ fn emit_fn(parts: FnParts, sel: &FuncSel, with_pub: bool, indent: usize, dropped
     } else {
         let mut blk = parts.block.clone();
         let wanted: Vec<usize> = sel.loop_spec.iter().map(|l| l.ordinal).collect();
-        let mut lm = LoopMarker { next: 0, wanted: wanted.clone() };
+        let named: Vec<usize> = sel.loop_spec.iter().filter(|l| !l.iter_name.is_empty()).map(|l| l.ordinal).collect();
+        let mut lm = LoopMarker { next: 0, wanted: wanted.clone(), named };
         syn::visit_mut::VisitMut::visit_block_mut(&mut lm, &mut blk);
         for w in &wanted {
             if *w >= lm.next {
@@ -551,6 +564,19 @@ fn emit_fn(parts: FnParts, sel: &FuncSel, with_pub: bool, indent: usize, dropped
                 let _ = writeln!(spec, "        {}", ln);
             }
             body = format!("{}\n{}{{{}", &body[..open], spec, &body[pos + marker.len()..]);
+            if !l.iter_name.is_empty() {
+                // `__vx_iter_N ( EXPR )` -> `NAME : EXPR`
+                let im = format!("__vx_iter_{} (", l.ordinal);
+                let ip = body.find(&im).unwrap_or_else(|| die(4, format!("iterator marker for loop {} vanished", l.ordinal)));
+                let start = ip + im.len();
+                let mut depth = 1i32;
+                let mut end = start;
+                for (k, c) in body[start..].char_indices() {
+                    if c == '(' { depth += 1; }
+                    if c == ')' { depth -= 1; if depth == 0 { end = start + k; break; } }
+                }
+                body = format!("{}{} : {}{}", &body[..ip], l.iter_name, &body[start..end], &body[end + 1..]);
+            }
         }
         // token-for-token check: the emitted body, re-lexed without loop specs, equals the source body
         let emitted_plain = {
